@@ -33,9 +33,9 @@ PIPELINES (family "pipe"): {"src": [kind, arg], "stages": [[filter, {params}], .
 template.  The *result kind* of every pipeline prefix is tracked statically (seq / sgen = sync iterator on both
 sides / lazy = async generator in async mode (map select reject selectattr rejectattr) / agen = async iterable
 supplied by wrapped data); a lazy or agen value that reaches a consumer which is not async-aware is the input
-class of known finding F27 and is counted as excluded (never executed).  Known finding F41 (async unique / slice
+class of known finding F27 and is counted as excluded (never executed).  Known finding F41 (async unique / slice / sum
 list their input when they are called, the sync ones when they are iterated): a pipeline in which listing the input
-of a unique / slice stage raises (decided in the sync environment before anything is judged) is excluded, counted.
+of a unique / slice stage or of a sum sink raises (decided in the sync environment before anything is judged) is excluded, counted.
 """
 import asyncio
 import copy
@@ -79,8 +79,8 @@ ASSUMPTIONS = [
     "excluded by construction, counted (known finding F27): the result of a lazy filter (map select reject selectattr "
     "rejectattr) or an async iterable of the data reaching a consumer that is not async-aware (sort min max reverse batch "
     "last length tojson in *args unpacking 'is iterable' printing string ~)",
-    "excluded, counted (known finding F41: async unique / slice list their input when called, the sync ones lazily): pipelines "
-    "in which evaluating the input of a unique / slice stage raises (decided by listing that input in the sync environment)",
+    "excluded, counted (known finding F41: async unique / slice / sum list their input when called, the sync ones lazily): pipelines "
+    "in which evaluating the input of a unique / slice stage or of a sum sink raises (decided by listing that input in the sync environment)",
     "excluded, counted (finding F53: native sync render() converts output values to str while the template is "
     "still running, render_async afterwards, so with two failing places a different error wins): native template sets that "
     "print an imported module object (its str() raises TypeError in a native environment)",
@@ -991,7 +991,7 @@ def _plan_pipe(case, allow_known=False):
 
     templates = dict(LIBS)
     templates["main"] = pipe_source(p)
-    # finding F41: async unique / slice list their input when called, the sync ones when (and as far as) they are
+    # finding F41: async unique / slice (and sum) list their input when called, the sync ones when (and as far as) they are
     # iterated.  Input class = evaluating the input of such a stage raises; decided on the sync side, before judging.
     prechecks = []
     for i, (name, _) in enumerate(p["stages"]):
@@ -999,6 +999,10 @@ def _plan_pipe(case, allow_known=False):
             pre = "pre%d" % i
             templates[pre] = "{% set r = " + _src_src(p["src"]) + "".join(_stage_src(s) for s in p["stages"][:i]) + "|list %}"
             prechecks.append(pre)
+    if p["sink"][0] == "sum" and not allow_known:
+        # since 240d1bf the async sum lists its input too; the builtin sum of the sync side adds while it pulls
+        templates["presum"] = "{% set r = " + _src_src(p["src"]) + "".join(_stage_src(s) for s in p["stages"]) + "|list %}"
+        prechecks.append("presum")
     labels = {"src_" + p["src"][0], "sink_" + p["sink"][0], "emb_" + p.get("emb", "plain")}
     if p.get("emb") in ("selfblock", "superblock") and bool(p.get("ae")) != (case.get("auto") is True):
         labels.add("blockref_under_other_autoescape")
